@@ -50,9 +50,15 @@ fn handshake<S: Read + Write + std::fmt::Debug>(
 	stream: S,
 	identifier: &str,
 	digest: &[u8],
+	tls12_only: bool,
 ) -> Result<(), String> {
 	let mut b = SslConnector::builder(SslMethod::tls()).map_err(|e| format!("{e}"))?;
 	b.set_verify(SslVerifyMode::NONE);
+	if tls12_only {
+		// RFC 8737 asks for "TLS 1.2 or higher": a validator whose highest version is 1.2 is a conforming one
+		b.set_max_proto_version(Some(openssl::ssl::SslVersion::TLS1_2))
+			.map_err(|e| format!("{e}"))?;
+	}
 	b.set_alpn_protos(b"\x0aacme-tls/1")
 		.map_err(|e| format!("{e}"))?;
 	let conn = b.build();
@@ -123,8 +129,16 @@ pub fn validate(
 						.and_then(|v| v.as_str())
 						.unwrap_or("/run");
 					let path = format!("{root}/tacd_{}.sock", authz.value);
+					// two validators: one offering up to TLS 1.3, one offering TLS 1.2 at most; both must be served
 					match std::os::unix::net::UnixStream::connect(&path) {
-						Ok(s) => handshake(s, &authz.value, &digest),
+						Ok(s) => handshake(s, &authz.value, &digest, false).and_then(|_| {
+							std::os::unix::net::UnixStream::connect(&path)
+								.map_err(|e| format!("{path}: {e}"))
+								.and_then(|s2| {
+									handshake(s2, &authz.value, &digest, true)
+										.map_err(|e| format!("TLS 1.2-only validator: {e}"))
+								})
+						}),
 						Err(e) => Err(format!("{path}: {e}")),
 					}
 				} else {
@@ -133,7 +147,14 @@ pub fn validate(
 						.and_then(|v| v.as_str())
 						.unwrap_or("127.0.0.1:5001");
 					match std::net::TcpStream::connect(addr) {
-						Ok(s) => handshake(s, &authz.value, &digest),
+						Ok(s) => handshake(s, &authz.value, &digest, false).and_then(|_| {
+							std::net::TcpStream::connect(addr)
+								.map_err(|e| format!("{addr}: {e}"))
+								.and_then(|s2| {
+									handshake(s2, &authz.value, &digest, true)
+										.map_err(|e| format!("TLS 1.2-only validator: {e}"))
+								})
+						}),
 						Err(e) => Err(format!("{addr}: {e}")),
 					}
 				};
